@@ -164,118 +164,6 @@ CHECKS = {
         design_ref="DESIGN.md section 8, C17",
         technique="Lean theorems about the flag's effect on the reference cost + cost correspondence under both flags; differential runs of the real CLI for emission and contract selection",
     ),
-    "C18": dict(
-        category="proof",
-        text=("Lean model of the constructors (Models/Formula.lean: mkAnd/mkOr/mkNot/mkImplies/mkEq, flattening, literal dropping, "
-              "Python's == as canonical-form equality) with theorems for every valuation and every formula: mkAnd_eval, mkOr_eval, "
-              "mkNot_eval, mkImplies_eval, mkEq_eval, pyEq_sound (structural equality implies equal value, by canon_sound), and "
-              "mkAnd_error_iff (exactly when the code raises). Tie: exact correspondence of the object returned by the real add_* "
-              "functions with the model's, of translate_formula's text with the model's rendering, and of Python's == with pyEq, on "
-              "the bounded-exhaustive and random tree families; truth tables over all valuations are the failing-input search."),
-        design_ref="DESIGN.md section 8, C18",
-        technique="Lean 4 structural-induction theorems about a model of connector_factory + exact input/output correspondence with the real constructors, renderer and ==",
-    ),
-    "C08": dict(
-        category="proof",
-        text=("The accept/reject decision is modelled in Lean (Models/Cost.lean: improves, hasBeenOptimized) and proved to be exactly the "
-              "property's wording (improves_spec: strictly better in the criterion, or equal with nothing worse and something better; "
-              "accepted_not_worse per criterion; costs_append: additivity). Tie: shape-exhaustive correspondence of the real "
-              "improves_criterion with the model on all small tuples, per-instruction comparison of the tool's accounting with an "
-              "independent cost table written in Lean, and every emitted block (3 criteria x split modes x PUSH0) judged by `acceptable` in "
-              "that independent measure."),
-        design_ref="DESIGN.md section 8, C08",
-        technique="Lean 4 theorem about the decision function + exhaustive correspondence on small tuples + independent Lean cost measure over real outputs",
-    ),
-    "C14": dict(
-        category="proof",
-        text=("Lean specification of splitting and rebuilding (Models/Asm.lean) with theorems for every block and every choice of cut "
-              "positions: joinShared_subBlocks (the sub-blocks joined at the shared instruction are the block), sharedOk_subBlocks, "
-              "rebuild_none (rebuilding with nothing replaced is the identity), rebuild_one (replacing sub-block k by R changes only that "
-              "segment, for every k and R). Tie: the sub-block lists, specification keys and "
-              "source/target stack sizes the real front end reports under the three policies, and the real "
-              "rebuild_optimized_asm_block with no and with each single replacement, are compared with the Lean functions on every "
-              "generated block (exact correspondence; stack sizes against Lean symbolic execution)."),
-        design_ref="DESIGN.md section 8, C14",
-        technique="Lean 4 theorems about the split/join/rebuild specification + exact correspondence of the real splitter and rebuilder with it",
-    ),
-    "C02": dict(
-        category="translation_validation",
-        text=("Every specification the real front end produces (all split modes, rules on/off, a systematic corpus of access pairs at "
-              "constant/unaligned/symbolic+constant offsets) is given to Lean, which evaluates the executable premises of the "
-              "kernel-checked theorem Spec.spec_denotes_block_under_every_schedule: load-result names do not clash (namesOk), the "
-              "schedules are duplicate-free permutations, every pair of operations that conflicts (data flow, same output, or "
-              "accesses not provably disjoint by Norm.disjoint_sound / keysDiffer_sound with a write) is connected by the declared "
-              "dependences plus data flow (conflictsOrdered), the schedules respect those pairs (respectsB), and the specification "
-              "evaluated under a schedule equals the symbolic execution of the block through the proved normaliser "
-              "(scheduleMatches_sound). The theorem then gives, for EVERY schedule respecting the pairs, every well-formed "
-              "environment and every sufficiently deep state, exec(B,sigma) = the state the specification denotes. The proof goes "
-              "through actEff_comm (non-conflicting operations commute), schedule_indep, and the simulation runSchedule_sim between "
-              "the symbolic evaluation and the concrete scheduled run. Canonical, reversed and random admissible schedules are "
-              "additionally evaluated one by one. What is validated, not proved: that the Python generator emits such a "
-              "specification for every block (sampled), and the JSON-to-model serialisation."),
-        design_ref="DESIGN.md section 8, C02",
-        technique="Lean theorem (schedule independence + proved validator) whose executable premises are checked on every specification the real front end emits",
-    ),
-    "C04": dict(
-        category="translation_validation",
-        text=("`Spec.realizes` (Lean) is the executable statement of the property: symbolic execution of the id sequence from the "
-              "specification's initial stack with no underflow, DUP/SWAP 1..16, every store exactly once, every dependence respected, each "
-              "operation applied to the operands the specification names (modulo commutativity), final stack as specified. Every sequence "
-              "the real greedy_from_json returns with error == 0 on every explored specification is checked by it (the greedy algorithm "
-              "is not modelled)."),
-        design_ref="DESIGN.md section 8, C04",
-        technique="Lean executable specification of 'realizes' applied to every output of the real greedy back end",
-    ),
-    "C09": dict(
-        category="translation_validation",
-        text=("Synthesized and shipped combined-json documents are run through the real command line under several option sets; an "
-              "independent reader compares metadata, every skeleton item (tags, jumps, terminals, split instructions) with all its fields, "
-              "checks every emitted item for well-formedness and pseudo-push operands against the input block, re-parses the output with the "
-              "tool's parser, and sends every changed block to the Lean-proved validator. Lean: Asm.rebuild_none/joinShared_subBlocks are the "
-              "theorems behind 'only optimizable segments change'."),
-        design_ref="DESIGN.md section 8, C09",
-        technique="independent reader over real emitted documents + Lean rebuild specification theorems + proved block validator",
-    ),
-    "C10": dict(
-        category="proof",
-        text=("Pipeline.lean models the keep-or-revert loop over arbitrary failing oracles: contract_total, failed_block_unchanged, "
-              "fault_local are proved for every failure pattern; wpow_eq bounds EXP folding to 256 squarings. Tie: the real command line "
-              "is re-run with faults injected into the analysis of a named block, the k-th greedy call and the k-th checker call, and must "
-              "behave as the model says; every generated and extreme-operand block must complete within a 10 s / 3 GiB budget without an "
-              "exception escaping (runtime validation; partial for the resource budget)."),
-        design_ref="DESIGN.md section 8, C10",
-        technique="Lean theorems about a pipeline model with failing oracles + fault-injection correspondence with the real CLI + per-block resource budget",
-    ),
-    "C15": dict(
-        category="proof",
-        text=("Clauses two and three (plain text): Models/Plain.lean is a Lean model of plain_instructions_to_asm_representation and of "
-              "AsmBytecode.to_plain over tokens. Kernel-checked: int(hex(n)[2:],16)=n, int(str(n))=n, leading zeros / 0x / upper case do not "
-              "change a value (for every n, every number of zeros), Plain.spelling_value (every spelling family of a constant c - PUSH hex, padded, "
-              "upper case, 0x; PUSHk 0x..; PUSHk decimal, padded - is read as one PUSH whose value denotes c) and Plain.parse_print (printing any "
-              "block of covered items under either PUSH0 setting and reading it back gives the block, numeric values preserved). Tie: the real reader "
-              "and printer are run on a deterministic corpus plus generated token streams (a quarter with a planted defect: missing operand, "
-              "non-number) and on every item of generated blocks, and must agree with the model output exactly (errors included); the theorem's "
-              "premise `covered` is evaluated on the real items. Clause one (JSON documents) is a differential round trip over shipped, test and "
-              "synthesized solc documents under both PUSH0 settings, with no theorem."),
-        design_ref="DESIGN.md section 8, C15",
-        technique="Lean 4 theorems (numeral round trips by induction, spelling_value, parse_print) about a model of the plain-text reader/printer + exact correspondence with the real reader/printer; differential JSON round trip",
-    ),
-    "C16": dict(
-        category="translation_validation",
-        text=("The published bounds are existential: a witness sequence (the greedy result, once accepted by Lean's Spec.realizes, with "
-              "its peak stack computed by Lean) shows init_progr_len and max_sk_sz feasible; min_length must not exceed the length of any "
-              "realizing sequence seen; original_instrs must be the sub-block. A witness outside the bounds decides nothing."),
-        design_ref="DESIGN.md section 8, C16",
-        technique="witness validation with the Lean 'realizes' checker over real specifications",
-    ),
-    "C17": dict(
-        category="exploration",
-        text=("Documents and plain blocks are run with PUSH0 disabled and enabled: no PUSH0 item may be emitted when disabled; the tool's "
-              "cost figures for input and output are compared with the Lean reference cost computed with the same flag; -c <contract> must "
-              "produce exactly that contract's assembly of the full run."),
-        design_ref="DESIGN.md section 8, C17",
-        technique="differential runs of the real CLI under both flag values with the Lean reference cost function",
-    ),
     "C11": dict(
         category="proof",
         text=("Pipeline.replayBlock models optimize_asm_from_log; replay_sound (any log content either aborts or yields an equivalent "
